@@ -314,7 +314,7 @@ package vnet
 // ---- chunk at most once.  chStamp: the time a chunk entered the router (set by Router.push before queueing).
 //@ monitor Router mutex: lastID, children, nics, stopFunc, chunkFilters
 //@ invariant (r *Router) filtersNonNil: forall i mathint :: {r.chunkFilters[i]} 0 <= i && i < len(r.chunkFilters) ==> r.chunkFilters[i] != nil
-//@ invariant (r *Router) nicsNonNil: forall s string :: {s in r.nics} (s in r.nics) ==> r.nics[s] != nil
+//@ invariant (r *Router) nicsNonNil: r.nics != nil && forall s string :: {s in r.nics} (s in r.nics) ==> r.nics[s] != nil
 //@ ghost global chStamp map[mathint]mathint
 //@ ghost global upN mathint
 //@ ghost global upRouter map[mathint]mathint
@@ -325,6 +325,8 @@ package vnet
 //@ ghost global rtEntered mathint
 //@ ghost global rtFrom mathint
 //@ ghost global rtHandN mathint
+//@ ghost global rtBlocked bool
+//@ ghost global rtRefused bool
 //@ ghost global rtTo mathint
 //@ func (c Chunk) setTimestamp() (t time.Time)
 //@   modifies clock, chStamp
@@ -352,7 +354,7 @@ package vnet
 //@   requires r.queue != nil && r.ipv4Net != nil && r.log != nil && r.minDelay >= 0 && (r.parent != nil ==> r.parent.queue != nil && r.parent.log != nil)
 //@   requires r.parent != nil ==> r.nat != nil && r.nat.natType.Mode == NATModeNormal && len(r.nat.mappedIPs) > 0 && r.nat.natType.MappingLifeTime >= 0 &&
 //@            r.nat.natType.FilteringBehavior <= EndpointAddrPortDependent && r.nat.natType.MappingBehavior <= EndpointAddrPortDependent
-//@   modifies randLast, clock, tLook, chSrc, chSrcIP, chStamp, lastPushed, fwdN, fwdNIC, fwdChunk, fwdTick, fwdIdx, fwdItem, upN, upRouter, upChunk, rtIdx, rtItem, rtHanded, rtEntered, rtFrom, rtTo, rtHandN
+//@   modifies randLast, clock, tLook, chSrc, chSrcIP, chStamp, lastPushed, fwdN, fwdNIC, fwdChunk, fwdTick, fwdIdx, fwdItem, upN, upRouter, upChunk, rtIdx, rtItem, rtHanded, rtEntered, rtFrom, rtTo, rtHandN, rtBlocked, rtRefused
 //@   ensures [noerror] err != nil ==> chNet[rtItem] != "udp"
 //@   ensures [popped] r.queue.head >= old(r.queue.head)
 //@   ensures [count] (fwdN - old(fwdN)) + (upN - old(upN)) <= r.queue.head - old(r.queue.head)
@@ -362,15 +364,18 @@ package vnet
 //@   loop 1 invariant [lock] held(r.mutex) && r.inv()
 //@   loop 1 invariant [view] r.queue.head >= old(r.queue.head) && rtHanded < r.queue.head && rtHanded >= old(r.queue.head) - 1 && rtEntered == enteredAt && enteredAt <= clock &&
 //@            cutOff == enteredAt - r.minDelay && fwdN >= old(fwdN) && (fwdN > old(fwdN) ==> fwdIdx[fwdN - 1] <= rtHanded)
+//@   loop 1 invariant [nolost] rtIdx == r.queue.head - 1 && (rtHanded == rtIdx || rtBlocked || (inNet(ref(r.ipv4Net), chDstIP[rtItem]) && !(chDstIP[rtItem] in r.nics)) ||
+//@            (!inNet(ref(r.ipv4Net), chDstIP[rtItem]) && (r.parent == nil || rtRefused)))
 //@   loop 1 invariant [count] (fwdN - old(fwdN)) + (upN - old(upN)) == rtHandN && upN >= old(upN) && rtHandN <= r.queue.head - old(r.queue.head)
 //@   loop 1 invariant [due] forall k mathint :: {fwdNIC[k]} old(fwdN) <= k && k < fwdN ==> chStamp[fwdChunk[k]] + r.minDelay <= fwdTick[k] && fwdTick[k] <= enteredAt
 //@   loop 1 invariant [fifo] forall k mathint :: {fwdNIC[k]} old(fwdN) <= k && k < fwdN ==> old(r.queue.head) <= fwdIdx[k] && fwdIdx[k] <= rtHanded &&
 //@            fwdItem[k] == fwdChunk[k] && (k > old(fwdN) ==> fwdIdx[k - 1] < fwdIdx[k])
-//@   ghost after Now#1: rtHanded = r.queue.head - 1; rtEntered = result$; rtHandN = 0
-//@   loop 2 invariant [idx] 0 <= i
-//@   ghost after pop#1: assert [head] result$1 ==> ref(result$0) == ref(chunk); rtIdx = r.queue.head - 1; rtItem = ref(result$0)
+//@   ghost after Now#1: rtHanded = r.queue.head - 1; rtIdx = r.queue.head - 1; rtEntered = result$; rtHandN = 0; rtBlocked = false; rtRefused = false
+//@   ghost after dyn#1: rtBlocked = rtBlocked || !result$
+//@   loop 2 invariant [idx] 0 <= i && (blocked ==> rtBlocked)
+//@   ghost after pop#1: assert [head] result$1 ==> ref(result$0) == ref(chunk); rtIdx = r.queue.head - 1; rtItem = ref(result$0); rtBlocked = false; rtRefused = false
 //@   ghost before onInboundChunk#1: assert [route] inNet(ref(r.ipv4Net), chDstIP[ref(chunk)]) && (chDstIP[ref(chunk)] in r.nics) && r.nics[chDstIP[ref(chunk)]] == nic; assert [due] chStamp[ref(chunk)] + r.minDelay <= rtEntered; assert [once] rtHanded < rtIdx && rtItem == ref(chunk); rtHanded = rtIdx; rtHandN = rtHandN + 1; fwdIdx[fwdN] = rtIdx; fwdItem[fwdN] = rtItem; fwdTick[fwdN] = rtEntered
-//@   ghost after translateOutbound#1: rtFrom = ref(chunk); rtTo = ref(result$0)
+//@   ghost after translateOutbound#1: rtFrom = ref(chunk); rtTo = ref(result$0); rtRefused = (result$0 == nil)
 //@   ghost before push#1: assert [routeup] !inNet(ref(r.ipv4Net), chDstIP[rtItem]) && rtFrom == rtItem && ref(toParent) == rtTo && toParent != nil; assert [dueup] chStamp[rtItem] + r.minDelay <= rtEntered; assert [onceup] rtHanded < rtIdx; rtHanded = rtIdx; rtHandN = rtHandN + 1
 
 // ---- token bucket filter (C15).  Ideal bucket (ghost, on the filter's own clock): tbIdeal tokens at time tbAt;
